@@ -199,9 +199,9 @@ theorem literal_mode_iff (m : LiteralMode) (o : EnumObj) :
 
 /-! ### default → member -/
 
-/-- PARTIAL (`--set-default-enum-member`): for an enum of plain strings (non-empty, no quote at either
-end, nothing the escape table rewrites) and a default equal to one of them, `find_member` returns a
-member whose value is that entry. `reprValue` is `repr(default)`; the hypothesis on it says that it is
+/-- PARTIAL (`--set-default-enum-member`): for an enum of plain strings (no quote at either end, nothing the
+escape table rewrites — the EMPTY string is one of them) and a default equal to one of them, `find_member`
+returns a member whose value is that entry. `reprValue` is `repr(default)`; the hypothesis on it says that it is
 not the literal text of a *different* entry (true of Python's `repr`). -/
 theorem default_member_found_partial (strs : List (List Char)) (s reprValue : List Char) :
     ∀ (ms : List Member),
@@ -219,20 +219,17 @@ theorem default_member_found_partial (strs : List (List Char)) (s reprValue : Li
       simp only [List.map_cons, List.cons.injEq] at hms
       obtain ⟨hm, hms'⟩ := hms
       have hsplain := hplain s hs
-      obtain ⟨hsne, hs1, hs2, _⟩ := plainStr_spec hsplain
-      have hnf : (JVal.str s).falsy = false := by
-        simp only [JVal.falsy]; cases s with
-        | nil => exact absurd rfl hsne
-        | cons _ _ => rfl
+      obtain ⟨hs1, hs2, _⟩ := plainStr_spec hsplain
       have hstrip_s : stripQ (JVal.str s).pyStr = s := stripQ_plain hs1 hs2
-      have hstrip_t : stripQ m.2.strOrEmpty = t := by
+      have hstrip_t : stripQ m.2.pyStr = t := by
         rw [hm]; exact strip_member_plain (hplain t List.mem_cons_self)
+      have hsome : m.2.isNone = false := by rw [hm]; rfl
       by_cases hts : t = s
       · subst hts
         refine ⟨m.1, ?_, ?_⟩
         · have hyes : memberMatches (.str t) reprValue m = true := by
-            simp [memberMatches, hstrip_s, hstrip_t]
-          simp [defaultMember, hnf, findMember, List.find?_cons_of_pos hyes]
+            simp [memberMatches, hsome, hstrip_s, hstrip_t]
+          simp [defaultMember, JVal.isNull, findMember, List.find?_cons_of_pos hyes]
         · rw [← hm]; exact List.mem_cons_self
       · have hs' : s ∈ ts := by
           simp only [List.mem_cons] at hs
@@ -245,11 +242,21 @@ theorem default_member_found_partial (strs : List (List Char)) (s reprValue : Li
         have hno : ¬ memberMatches (.str s) reprValue m = true := by
           unfold memberMatches
           rw [hstrip_s, hstrip_t, hm]
-          simp only [memberDefault, Bool.or_eq_true, beq_iff_eq, not_or]
+          simp only [memberDefault, Bool.and_eq_true, Bool.or_eq_true, beq_iff_eq, not_and, not_or]
+          intro _
           exact ⟨hts, fun h => hts (hrepr t List.mem_cons_self h)⟩
-        simp only [defaultMember, hnf, Bool.false_eq_true, if_false, findMember] at hn ⊢
+        simp only [defaultMember, JVal.isNull, Bool.false_eq_true, if_false, findMember] at hn ⊢
         rw [List.find?_cons_of_neg hno]
         exact hn
+
+/-- non-vacuity, on the region the repaired finding D25 excluded: the empty string is a plain string and the
+default `""` of `enum: ["a", ""]` is replaced by the member of `""` -/
+example : plainStr [] = true ∧
+    ∃ ms, parseEnum pyEnv {} ⟨some strT, [.str ['a'], .str []], []⟩ = .ok (ms, false) ∧
+      defaultMember ms (.str []) ['\'', '\''] = some ['f', 'i', 'e', 'l', 'd', '_'] ∧
+      (['f', 'i', 'e', 'l', 'd', '_'], memberDefault (.str [])) ∈ ms := by
+  refine ⟨by decide, [(['a'], memberDefault (.str ['a'])), (['f', 'i', 'e', 'l', 'd', '_'], memberDefault (.str []))],
+    by decide +kernel, by decide +kernel, by decide +kernel⟩
 
 /-- two entries with the same literal text are the same entry (the lexer reads the entry back) -/
 theorem member_literal_injective (t s : List Char)
@@ -262,50 +269,48 @@ theorem member_literal_injective (t s : List Char)
 
 /-- PARTIAL, escaped strings (`--set-default-enum-member`; the region outside known finding D24): a default
 equal to an entry whose hand-escaped literal IS `repr(default)` (backslash, `\n`, `\r`, `\t`, NUL … without
-quotes) is found through the second comparison of `find_member`, provided no OTHER entry has the same text
-after stripping quotes. The member returned has that entry's value. -/
+quotes; also the empty string, `repr("")` is `''`) is found through the second comparison of `find_member`,
+provided no OTHER entry has the same text after stripping quotes. The member returned has that entry's value. -/
 theorem default_member_found_by_repr_partial (strs : List (List Char)) (s reprValue : List Char) :
     ∀ (ms : List Member),
       ms.map (·.2) = strs.map (fun t => memberDefault (.str t)) →
-      s ∈ strs → s ≠ [] →
+      s ∈ strs →
       quoted '\'' enumTable s = reprValue →
       (∀ t ∈ strs, t ≠ s → stripQ (quoted '\'' enumTable t) ≠ stripQ s) →
       ∃ n, defaultMember ms (.str s) reprValue = some n ∧ (n, memberDefault (.str s)) ∈ ms := by
   induction strs with
-  | nil => intro ms _ hs _ _ _; cases hs
+  | nil => intro ms _ hs _ _; cases hs
   | cons t ts ih =>
-    intro ms hms hs hne hrepr htwin
+    intro ms hms hs hrepr htwin
     cases ms with
     | nil => simp at hms
     | cons m ms' =>
       simp only [List.map_cons, List.cons.injEq] at hms
       obtain ⟨hm, hms'⟩ := hms
-      have hnf : (JVal.str s).falsy = false := by
-        simp only [JVal.falsy]; cases s with
-        | nil => exact absurd rfl hne
-        | cons _ _ => rfl
       by_cases hts : t = s
       · subst hts
         refine ⟨m.1, ?_, ?_⟩
         · have hyes : memberMatches (.str t) reprValue m = true := by
-            simp [memberMatches, hm, memberDefault, hrepr]
-          simp [defaultMember, hnf, findMember, List.find?_cons_of_pos hyes]
+            simp [memberMatches, hm, memberDefault, Default.isNone, hrepr]
+          simp [defaultMember, JVal.isNull, findMember, List.find?_cons_of_pos hyes]
         · rw [← hm]; exact List.mem_cons_self
       · have hs' : s ∈ ts := by
           simp only [List.mem_cons] at hs
           rcases hs with hs | hs
           · exact absurd hs.symm hts
           · exact hs
-        obtain ⟨n, hn, hmem⟩ := ih ms' hms' hs' hne hrepr
+        obtain ⟨n, hn, hmem⟩ := ih ms' hms' hs' hrepr
           (fun u hu => htwin u (List.mem_cons_of_mem _ hu))
         refine ⟨n, ?_, List.mem_cons_of_mem _ hmem⟩
         have hno : ¬ memberMatches (.str s) reprValue m = true := by
           unfold memberMatches
           rw [hm]
-          simp only [memberDefault, Default.strOrEmpty, JVal.pyStr, Bool.or_eq_true, beq_iff_eq, not_or]
+          simp only [memberDefault, Default.pyStr, JVal.pyStr, Bool.and_eq_true, Bool.or_eq_true, beq_iff_eq,
+            not_and, not_or]
+          intro _
           refine ⟨htwin t List.mem_cons_self hts, fun h => hts ?_⟩
           exact member_literal_injective t s (h.trans hrepr.symm)
-        simp only [defaultMember, hnf, Bool.false_eq_true, if_false, findMember] at hn ⊢
+        simp only [defaultMember, JVal.isNull, Bool.false_eq_true, if_false, findMember] at hn ⊢
         rw [List.find?_cons_of_neg hno]
         exact hn
 
@@ -334,11 +339,109 @@ theorem default_member_missed_witness :
       defaultMember ms (.str ['a', '\'', 'b']) ['"', 'a', '\'', 'b', '"'] = none := by
   refine ⟨[(['a', '_', 'b'], memberDefault (.str ['a', '\'', 'b']))], by decide +kernel, by decide +kernel⟩
 
-/-- …and a falsy default (`0`, `""`, `false`) is never replaced by its member (known finding D25). -/
-theorem default_member_falsy_witness (ms : List Member) (r : List Char) :
-    defaultMember ms (.int 0) r = none ∧ defaultMember ms (.str []) r = none ∧
-      defaultMember ms (.bool false) r = none := by
-  simp [defaultMember, JVal.falsy]
+/-- PARTIAL, non-string scalars (`--set-default-enum-member`), INCLUDING the falsy ones `0`, `false`, `0.0` (the
+region of the repaired finding D25): a default that is a non-null, non-string entry `v` of ANY enum of scalar
+entries is replaced by a member whose value is `v`, provided no OTHER entry has the same text after stripping
+quotes (`enum: ["0", 0]` is inside known finding D24). `reprValue` is `repr(default)`; the hypothesis on it says
+that it does not start with a quote (true of Python's `repr` of a number / bool). -/
+theorem default_member_found_scalar_partial (vs : List JVal) (v : JVal) (reprValue : List Char)
+    (hns : v.isStr = false) (hnn : v ≠ .null) (hr : reprValue.head? ≠ some '\'') :
+    ∀ (ms : List Member),
+      ms.map (·.2) = vs.map memberDefault → v ∈ vs →
+      (∀ w ∈ vs, w ≠ v → stripQ (memberDefault w).pyStr ≠ stripQ v.pyStr) →
+      ∃ n, defaultMember ms v reprValue = some n ∧ (n, memberDefault v) ∈ ms := by
+  have hraw : memberDefault v = .raw v := by
+    cases v <;> first | rfl | simp [JVal.isStr] at hns
+  have hnull : v.isNull = false := by
+    cases v <;> first | rfl | exact absurd rfl hnn
+  have hsome : (Default.raw v).isNone = false := by
+    cases v <;> first | rfl | exact absurd rfl hnn
+  induction vs with
+  | nil => intro ms _ hv _; cases hv
+  | cons w ws ih =>
+    intro ms hms hv htwin
+    cases ms with
+    | nil => simp at hms
+    | cons m ms' =>
+      simp only [List.map_cons, List.cons.injEq] at hms
+      obtain ⟨hm, hms'⟩ := hms
+      by_cases hwv : w = v
+      · subst hwv
+        refine ⟨m.1, ?_, ?_⟩
+        · have hyes : memberMatches w reprValue m = true := by
+            simp [memberMatches, hm, hraw, hsome, Default.pyStr]
+          simp [defaultMember, hnull, findMember, List.find?_cons_of_pos hyes]
+        · rw [← hm]; exact List.mem_cons_self
+      · have hv' : v ∈ ws := by
+          simp only [List.mem_cons] at hv
+          rcases hv with hv | hv
+          · exact absurd hv.symm hwv
+          · exact hv
+        obtain ⟨n, hn, hmem⟩ := ih ms' hms' hv' (fun u hu => htwin u (List.mem_cons_of_mem _ hu))
+        refine ⟨n, ?_, List.mem_cons_of_mem _ hmem⟩
+        have hno : ¬ memberMatches v reprValue m = true := by
+          have h1 := htwin w List.mem_cons_self hwv
+          unfold memberMatches
+          rw [hm]
+          simp only [Bool.and_eq_true, Bool.or_eq_true, beq_iff_eq, not_and, not_or]
+          intro _
+          refine ⟨h1, ?_⟩
+          cases w with
+          | str t =>
+            simp only [memberDefault, beq_iff_eq]
+            intro h
+            apply hr
+            rw [← h]
+            simp [quoted]
+          | _ => simp [memberDefault]
+        simp only [defaultMember, hnull, Bool.false_eq_true, if_false, findMember] at hn ⊢
+        rw [List.find?_cons_of_neg hno]
+        exact hn
+
+/-- non-vacuity, on the witness of the repaired finding D25: `enum: [0, 1]` with default `0`, `enum: [true, false]`
+with default `false` — no other entry has the same text, the default becomes the member of that value -/
+example :
+    (∀ w ∈ [JVal.int 0, .int 1], w ≠ .int 0 → stripQ (memberDefault w).pyStr ≠ stripQ (JVal.int 0).pyStr) ∧
+    (∀ w ∈ [JVal.bool true, .bool false], w ≠ .bool false →
+      stripQ (memberDefault w).pyStr ≠ stripQ (JVal.bool false).pyStr) ∧
+    ∃ ms, parseEnum pyEnv {} ⟨some ['i', 'n', 't', 'e', 'g', 'e', 'r'], [.int 0, .int 1], []⟩ = .ok (ms, false) ∧
+      defaultMember ms (.int 0) ['0'] = some ['i', 'n', 't', 'e', 'g', 'e', 'r', '_', '0'] ∧
+      (['i', 'n', 't', 'e', 'g', 'e', 'r', '_', '0'], memberDefault (.int 0)) ∈ ms := by
+  refine ⟨by decide, by decide,
+    [(['i', 'n', 't', 'e', 'g', 'e', 'r', '_', '0'], .raw (.int 0)), (['i', 'n', 't', 'e', 'g', 'e', 'r', '_', '1'], .raw (.int 1))],
+    by decide +kernel, by decide +kernel, by decide +kernel⟩
+
+/-- RESIDUAL REGION of the default → member step after the repair of D25 (it lies inside known finding D12 and is
+not a violation of its own: the property speaks of defaults that are NON-null entries): the member
+`NoneType_None = None` that an enum without `type: string` gets for a null entry is never the result of a lookup.
+A `null` default is a missing default (`if model_field.default is None: continue`), `find_member` skips members
+without value (`if field.default is None: continue`), so whatever is looked up — also `null` as an element of a
+list default — the member returned has a value. Witness: the enum of `enum_null_member_witness`. -/
+theorem default_member_null_witness :
+    (∀ (ms : List Member) (r : List Char), defaultMember ms .null r = none) ∧
+    (∀ (ms : List Member) (v : JVal) (r n : List Char), findMember ms v r = some n →
+      ∃ d, (n, d) ∈ ms ∧ d ≠ .raw .null) ∧
+    ∃ ms, parseEnum pyEnv {} ⟨none, [.int 1, .null], []⟩ = .ok (ms, false) ∧
+      (['N', 'o', 'n', 'e', 'T', 'y', 'p', 'e', '_', 'N', 'o', 'n', 'e'], Default.raw .null) ∈ ms ∧
+      findMember ms .null ['N', 'o', 'n', 'e'] = none := by
+  refine ⟨fun _ _ => rfl, ?_, ?_⟩
+  · intro ms v r n h
+    unfold findMember at h
+    cases hf : ms.find? (memberMatches v r) with
+    | none => rw [hf] at h; cases h
+    | some m =>
+      rw [hf] at h
+      simp only [Option.map_some, Option.some.injEq] at h
+      subst h
+      refine ⟨m.2, List.mem_of_find?_eq_some hf, ?_⟩
+      have hp := List.find?_some hf
+      intro hd
+      simp [memberMatches, hd, Default.isNone] at hp
+  · exact ⟨_, enum_null_member_witness, by decide, by decide +kernel⟩
+
+/-- an empty list default (`default: []`) names no entry: it stays as it is (`if not enum_member: continue`) -/
+example (h : Heap) (en : List Char) (ms : List Member) (a : Option (List Char)) :
+    applyStep h ⟨en, ms, a, .list []⟩ = (h, .unchanged) := rfl
 
 
 /-! ### the text of a default member across modules (`Parser.__set_default_enum_member`, whole run) -/
